@@ -332,9 +332,18 @@ def familyTarget (q : Query) (fam : Nat) : Option (Nat × Nat) :=
 
 def overlap (a b c d : Nat) : Bool := (decide (c ≥ a) && decide (c ≤ b)) || (decide (a ≥ c) && decide (a ≤ d))
 
-/-- the `DownSampling` calls of one memory database for one series, in `Load` order:
-compress buffer first, then the write buffer. `memoryDatabase.Filter` answers nothing when the
-metric has no time range for this memory database or it does not overlap the query range. -/
+/-- the `DownSampling` calls of one page, in `timeSeriesIndex.Load` order: the compress buffer
+(if any) first, then the write buffer; `[lo, hi]` is the metric-level slot range of the memory
+database, `[tLo, tHi]` the query slot range of the family. -/
+def pageCalls (L : List AggType) (b : Buf) (lo hi tLo tHi g0 qs ratio : Nat) : List Arrays :=
+  (match b.compress with
+    | some _ => [dsCall L (oldValue b.compress) lo hi tLo tHi g0 qs ratio]
+    | none => []) ++
+  [dsCall L (fun slot => if b.hasData then curValue b slot else none) lo hi tLo tHi g0 qs ratio]
+
+/-- the `DownSampling` calls of one memory database for the series of a group.
+`memoryDatabase.Filter` answers nothing when the metric has no time range for this memory
+database or it does not overlap the query range. -/
 def memCalls (s : Shard) (q : Query) (L : List AggType) (md : MemDB) (fam : Nat) (group : List Nat) : List Arrays :=
   match familyTarget q fam, Map.lookup s.ranges md.created with
   | some (tLo, tHi), some (lo, hi) =>
@@ -342,11 +351,7 @@ def memCalls (s : Shard) (q : Query) (L : List AggType) (md : MemDB) (fam : Nat)
       group.flatMap (fun ser =>
         match Map.lookup md.pages (ser, q.field) with
         | none => []
-        | some b =>
-          (match b.compress with
-            | some _ => [dsCall L (oldValue b.compress) lo hi tLo tHi (fam * q.spf) q.qs q.ratio]
-            | none => []) ++
-          [dsCall L (fun slot => if b.hasData then curValue b slot else none) lo hi tLo tHi (fam * q.spf) q.qs q.ratio])
+        | some b => pageCalls L b lo hi tLo tHi (fam * q.spf) q.qs q.ratio)
     else []
   | _, _ => []
 
